@@ -24,7 +24,7 @@ func (e *Engine) rootsAtCall(v ssa.Value, names ...string) bool {
 }
 
 func runC15(e *Engine, r *Report, tier string) {
-	r.Explanation = "C15, structural clauses. Decided: R1 in the deposit routine the coins moved to the governance module account, the increment of Proposal.TotalDeposit and the amount of the created/updated Deposit record are the same parameter, and both the proposal and the deposit record are written on every success path after the transfer; R2 for an ended proposal in the deposit-period queue every success path of the end-block callback runs exactly one of refund / burn (they lie on exclusive branches); for an ended proposal in the voting queue every success path runs refund, burn or the expedited re-queue; the unsupported-proposal path refunds; R3 voting is activated only under `status == deposit period` and `TotalDeposit.IsAllGTE(m)` with m the result of the per-message-type minimum, which returns the default for a non-community-pool-spend first message and never less than the default; R4 the voting end time uses the per-type period getter and the tally compares against the per-type quorum getter; R5 the same-type check on the proposal's messages precedes proposal creation; R6 passed messages apply all or nothing (decided by C18.R1b at the gov site). Not decided: arithmetic of ratios, histories over several proposals."
+	r.Explanation = "C15, structural clauses. Decided: R1 in the deposit routine the coins moved to the governance module account, the increment of Proposal.TotalDeposit and the amount of the created/updated Deposit record are the same parameter, and both the proposal and the deposit record are written on every success path after the transfer; R2 for an ended proposal in the deposit-period queue every success path of the end-block callback runs exactly one of refund / burn (they lie on exclusive branches); for an ended proposal in the voting queue every success path runs refund, burn or the expedited re-queue; the unsupported-proposal path refunds; R3 voting is activated only under `status == deposit period` and `TotalDeposit.IsAllGTE(m)` with m the result of the per-message-type minimum, which returns the default for a non-community-pool-spend first message and never less than the default; R4 the voting end time uses the per-type period getter and the tally compares against the per-type quorum getter; R5 the same-type check on the proposal's messages precedes proposal creation; R6 passed messages apply all or nothing (decided by C18.R1b at the gov site); R7 a message type URL in x/gov is never computed by applying sdk.MsgTypeURL to the packed *codectypes.Any (which always yields /google.protobuf.Any, so that no per-type parameter would ever be found). Not decided: arithmetic of ratios, histories over several proposals."
 	r.Rule("R1", "deposit: transferred amount = TotalDeposit increment = Deposit record amount; both records written", 4, "")
 	r.Rule("R2", "each ended proposal's deposits are refunded or burned exactly once (or re-queued when expedited fails)", 3, "gov end-block callbacks")
 	r.Rule("R3", "voting activated only at the per-message-type minimum", 3, "")
@@ -38,6 +38,34 @@ func runC15(e *Engine, r *Report, tier string) {
 	for _, o := range sub18.Obls {
 		if strings.HasPrefix(o.Construct, "x/gov.") && strings.HasPrefix(o.Rule, "R1") {
 			r.add("R6", o.Rule+" "+o.Construct, o.Status, o.Pos, o.Detail)
+		}
+	}
+
+	// ---------- R7: the message type under which per-type parameters are looked up is the proposal message's own ----------
+	r.Rule("R7", "the type URL of a proposal message is never computed from the packed Any itself", 1, "MsgTypeURL call sites in x/gov")
+	{
+		n7 := 0
+		for _, fn := range e.Funcs {
+			if isAuxPkg(fnPkgPath(fn)) || !strings.Contains(fnPkgPath(fn), "x/gov") {
+				continue
+			}
+			allCalls(fn, func(c ssa.CallInstruction) {
+				cc0, ok := c.(*ssa.Call)
+				if !ok || !isMsgTypeURLCall(cc0) || len(cc0.Call.Args) != 1 {
+					return
+				}
+				n7++
+				arg := cc0.Call.Args[0]
+				if mi, ok := arg.(*ssa.MakeInterface); ok {
+					arg = mi.X
+				}
+				ck := e.FnKey(fn) + " MsgTypeURL(" + regNames.ReplaceAllString(vkey(arg, 0), "") + ")"
+				isAny := strings.HasSuffix(namedTypeName(arg.Type()), "codec/types.Any")
+				r.Check(!isAny, "R7", ck, e.InstrPos(c), "type URL of a message value", "sdk.MsgTypeURL is applied to the packed *codectypes.Any: the result is always /google.protobuf.Any, so per-message-type parameters (minimum deposit, voting period, quorum) are never found and the defaults apply to every proposal")
+			})
+		}
+		if n7 == 0 {
+			r.Fail("R7", "MsgTypeURL sites", "", "UNRESOLVED-ANCHOR: no MsgTypeURL call in x/gov")
 		}
 	}
 
